@@ -49,7 +49,11 @@ CONFIGS = [
 CURATED = ["git status", "git push", "docker ps", "docker exec c ls", "kubectl get pods", "env FOO=1 git status",
            "xargs rm", "find . -name x -exec rm {} ;", "sh -c 'git push'", "timeout 5 git status", "ls | grep x",
            "cat f > out", "python x.py", "zap 1", "okcmd a b", "g status", "echo $(git status)", "frobnicate a",
-           "ls; cd /tmp; cat x > y", "rm -rf x", "curl http://x", "sed -i s/a/b/ f", "sort -o out f", "awk '{print}' f"]
+           "ls; cd /tmp; cat x > y", "rm -rf x", "curl http://x", "sed -i s/a/b/ f", "sort -o out f", "awk '{print}' f",
+           # commands whose verdict depends on referenced files: the same script bytes sit in every cwd, the
+           # sibling modules next to them differ (see World)
+           "python s.py", "python3 s.py a b", "python t.py", "cd sub && python s.py", "python sub/s.py", "python -m calendar",
+           "sqlite3 db 'select 1'", "python s.py; python t.py"]
 
 
 def worker(job, home, argv=()):
@@ -130,6 +134,19 @@ class World:
                     f.write(text)
             with open(os.path.join(d, "x.py"), "w") as f:
                 f.write("print(1)\n")
+            # identical script bytes in every cwd; what lies next to them differs from cwd to cwd
+            os.makedirs(os.path.join(d, "sub"))
+            for rel in ("s.py", "t.py", os.path.join("sub", "s.py")):
+                with open(os.path.join(d, rel), "w") as f:
+                    f.write("import json\nimport textwrap\nprint(json.dumps([1, 2]))\n")
+            if name in ("rules", "logfull"):
+                with open(os.path.join(d, "json.py"), "w") as f:       # a sibling shadows a safe module
+                    f.write("print('shadow')\n")
+            if name in ("logok", "lognul"):
+                os.makedirs(os.path.join(d, "sub", "textwrap"))        # ... a package, one level down
+            if name == "lognotdir":
+                with open(os.path.join(d, "t.py"), "w") as f:           # same name, different bytes
+                    f.write("import os\nos.system('x')\n")
             self.cwds[name] = {"path": d, "log": log, "cfail": cfail, "dfail": dfail}
 
 
@@ -231,6 +248,17 @@ def run(tier, seed, replay=None):
                 hist = [gen_query(rng, world, commands, explicit) for _ in range(L)]
                 q = gen_final(rng, world, commands)
                 jobs.append(("random", hist, [q, q], ["--" + explicit] if explicit else []))
+            # referenced files: the same command in every ordered pair of cwds (what one cwd's files say must
+            # not stick to the next analysis of identical script bytes elsewhere)
+            names = list(world.cwds)
+            for cmd in ("python s.py", "python t.py", "cd sub && python s.py", "python sub/s.py"):
+                for a in names:
+                    for b in names:
+                        if a == b:
+                            continue
+                        hist = [{"k": "analyze", "command": cmd, "config": "", "cwd": world.cwds[a]["path"], "remote": False}]
+                        q = {"k": "analyze", "command": cmd, "config": "", "cwd": world.cwds[b]["path"], "remote": False}
+                        jobs.append(("files", hist, [q, q], []))
             # systematic eviction: for every handler module, 40 other handlers first, then the query on it
             mods = list(by_module.items())
             step = 1
